@@ -303,6 +303,18 @@ class DrvDomain(Domain):
             return None
         if qn in ("std::cout", "std::cerr", "std::clog"):
             return Opaque("stream")
+        g = getattr(self.prog, "globals", {}).get(qn)
+        if g is not None and g.get("init") is not None and "const" in (g.get("t") or ""):
+            # a named constant (namespace scope or static constexpr member): its literal value
+            i = g["init"]
+            while i is not None and i.get("k") in ("Paren", "Cast", "ImplicitCast", "Expr") and i.get("e") is not None:
+                i = i["e"]
+            if i is not None and i.get("k") == "Int":
+                return int(i["v"])
+            if i is not None and i.get("k") == "Bool":
+                return bool(i["v"])
+            if i is not None and i.get("k") == "Float":
+                return Fraction((i.get("text") or i["v"]).rstrip("fFlL"))
         raise AnalysisBroken("global %s not modelled at %s" % (qn, ir.locstr(e)))
 
     def default_value(self, t, v, fr):
@@ -589,6 +601,11 @@ class DrvDomain(Domain):
                 return LevelRef(self.L - 1)
             if mname == "size":
                 return self.L
+            if mname == "empty":
+                # levels_ holds the hierarchy once setup() has built it; before that (or after clear()) it is empty
+                return not bool(getattr(self, "levels_built", None) or self.bufs)
+            if mname == "front":
+                return LevelRef(0)
         if isinstance(this, LevelRef):
             m = mname
             if m in WHICH:
